@@ -111,6 +111,8 @@ func runC07(p *core.Program, r *core.Report) {
 	freshBytesResult(p, r, "C07.fresh-bytes", []string{"lang/pack/udp"})
 	r.Rule("C07.caps", "the fields cut to a maximum length on the wire are the documented ones: no writer introduces a new length cap (a capped field no longer round-trips over the 16-bit length range)", 1)
 	c07Caps(p, r)
+	r.Rule("C07.derived-text", "a field sent as text that Write formats from another field is formatted on every path (a constant only where the source is absent)", 1)
+	c07DerivedText(p, r, "C07.derived-text")
 	r.Rule("C07.textnum", "integers carried as text are formatted/parsed with matching helpers (no string(int) conversion, no width change)", 1)
 
 	pairs, _ := discoverPairs(p, x, []string{"lang/pack/udp"})
@@ -1362,4 +1364,95 @@ func maskHelperSeps(p *core.Program, info *types.Info, call *ast.CallExpr) []str
 func isConstEmpty(info *types.Info, e ast.Expr) bool {
 	tv, ok := info.Types[e]
 	return ok && tv.Value != nil && tv.Value.Kind() == constant.String && constant.StringVal(tv.Value) == ""
+}
+
+// c07DerivedText: a UDP pack that sends a field as text it formats in Write (this.Data =
+// format(this.ActiveStats)) formats it on every path. A branch that gives the text a constant instead
+// is an omission unless its condition says the source is absent (nil or empty): "all zero" is not
+// "absent" — the reader rebuilds the field from the text and gets nothing where zeros were sent.
+func c07DerivedText(p *core.Program, r *core.Report, rule string) {
+	pk := p.Pkg("lang/pack/udp")
+	if pk == nil {
+		return
+	}
+	for _, fi := range p.Funcs {
+		if fi.Pkg != pk || fi.Decl.Body == nil || fi.Decl.Recv == nil || fi.Obj.Name() != "Write" {
+			continue
+		}
+		info := fi.Pkg.TypesInfo
+		rn := recvName(fi)
+		fieldOf := func(e ast.Expr) string {
+			if sel, ok := ast.Unparen(e).(*ast.SelectorExpr); ok {
+				if id, ok := ast.Unparen(sel.X).(*ast.Ident); ok && id.Name == rn {
+					return sel.Sel.Name
+				}
+			}
+			return ""
+		}
+		// derived[F] = G: some statement assigns recv.F = call(… recv.G …)
+		derived := map[string]string{}
+		ast.Inspect(fi.Decl.Body, func(n ast.Node) bool {
+			as, ok := n.(*ast.AssignStmt)
+			if !ok || len(as.Lhs) != 1 || len(as.Rhs) != 1 {
+				return true
+			}
+			f := fieldOf(as.Lhs[0])
+			call, isCall := ast.Unparen(as.Rhs[0]).(*ast.CallExpr)
+			if f == "" || !isCall {
+				return true
+			}
+			for _, a := range call.Args {
+				if g := fieldOf(a); g != "" && g != f {
+					if _, isSlice := info.TypeOf(a).Underlying().(*types.Slice); isSlice {
+						derived[f] = g
+					}
+				}
+			}
+			return true
+		})
+		if len(derived) == 0 {
+			continue
+		}
+		bad := ""
+		var walk func(n ast.Node, conds []ast.Expr)
+		walk = func(n ast.Node, conds []ast.Expr) {
+			switch v := n.(type) {
+			case *ast.BlockStmt:
+				for _, s := range v.List {
+					walk(s, conds)
+				}
+			case *ast.IfStmt:
+				walk(v.Body, append(append([]ast.Expr{}, conds...), v.Cond))
+				if v.Else != nil {
+					walk(v.Else, append(append([]ast.Expr{}, conds...), v.Cond))
+				}
+			case *ast.AssignStmt:
+				if len(v.Lhs) != 1 || len(v.Rhs) != 1 {
+					return
+				}
+				f := fieldOf(v.Lhs[0])
+				g, isDerived := derived[f]
+				if !isDerived {
+					return
+				}
+				if tv, ok := info.Types[v.Rhs[0]]; !ok || tv.Value == nil {
+					return
+				}
+				// a constant for the derived text: every enclosing condition must be about the absence of the source
+				okAbsent := len(conds) > 0
+				for _, c := range conds {
+					s := stripSpaces(types.ExprString(c))
+					src := rn + "." + g
+					if !(strings.Contains(s, src+"==nil") || strings.Contains(s, src+"!=nil") || strings.Contains(s, "len("+src+")")) {
+						okAbsent = false
+					}
+				}
+				if !okAbsent {
+					bad = "the text field " + f + " is formatted from " + g + " on one path and given the constant " + types.ExprString(v.Rhs[0]) + " at " + p.Pos(v.Pos()) + " on another whose condition is not that " + g + " is absent: values that are present (zeros) are not sent and do not come back"
+				}
+			}
+		}
+		walk(fi.Decl.Body, nil)
+		r.Check(bad == "", rule, core.FuncName(fi.Obj)+" derived text", p.Pos(fi.Decl.Pos()), "formatted on every path", bad)
+	}
 }
